@@ -16,6 +16,7 @@ import (
 	assettypes "github.com/comdex-official/comdex/x/asset/types"
 	"github.com/comdex-official/comdex/x/lend"
 	lendtypes "github.com/comdex-official/comdex/x/lend/types"
+	liqV2types "github.com/comdex-official/comdex/x/liquidationsV2/types"
 	markettypes "github.com/comdex-official/comdex/x/market/types"
 )
 
@@ -172,6 +173,7 @@ func c08Setup(t *testing.T, tr *tracer) (*c08Fix, sdk.Context) {
 	for j := 0; j < 4; j++ {
 		setPrice(a, ctx, A[j], prices[j], true)
 	}
+	c08LiqSetup(f, ctx) // second-generation liquidation of lend positions is enabled for the lend app
 	// ---- configuration for the model
 	for _, id := range append(append([]uint64{}, f.assets...), f.cassets...) {
 		tr.p("cfg asset %d %d", id, f.decimals[id])
@@ -332,6 +334,80 @@ func c08BI(f *c08Fix, ctx sdk.Context, borrowID uint64) string {
 	return fmt.Sprintf("0 %s %s", b1.InterestAccumulated.Sub(b0.InterestAccumulated).BigInt().String(), dres.BigInt().String())
 }
 
+// the ENV of a hand-over: the decision LiquidateIndividualBorrow takes (0 not liquidatable, 1 handed
+// over, 2 error / 3 panic before any write) and the interest IterateBorrowForLiq adds, measured on a
+// throw-away cache context with the keeper's own functions (liquidationsV2/keeper/liquidate.go:261-357)
+func c08LiqEnv(f *c08Fix, ctx sdk.Context, id uint64) (int, string) {
+	k := f.a.LendKeeper
+	b0, found := k.GetBorrow(ctx, id)
+	if !found || b0.IsLiquidated {
+		return 0, "0"
+	}
+	pair, _ := k.GetLendPair(ctx, b0.PairID)
+	lendPos, found := k.GetLend(ctx, b0.LendingID)
+	if !found {
+		return 2, "0"
+	}
+	pool, _ := k.GetPool(ctx, lendPos.PoolID)
+	assetIn, _ := f.a.AssetKeeper.GetAsset(ctx, pair.AssetIn)
+	assetOut, _ := f.a.AssetKeeper.GetAsset(ctx, pair.AssetOut)
+	rp, _ := k.GetAssetRatesParams(ctx, pair.AssetIn)
+	cc, _ := ctx.CacheContext()
+	var b lendtypes.BorrowAsset
+	var err error
+	if p, _ := safely(func() { b, err = k.CalculateBorrowInterestForLiquidation(cc, id) }); p {
+		return 3, "0"
+	}
+	if err != nil {
+		return 2, "0"
+	}
+	dint := b.InterestAccumulated.Sub(b0.InterestAccumulated).BigInt().String()
+	if !b.StableBorrowRate.Equal(sdk.ZeroDec()) {
+		if p, _ := safely(func() { b, err = k.ReBalanceStableRates(cc, b) }); p {
+			return 3, "0"
+		}
+		if err != nil {
+			return 2, "0"
+		}
+	}
+	thr := rp.LiquidationThreshold
+	if pair.IsEModeEnabled {
+		thr = rp.ELiquidationThreshold
+	}
+	var t1, t2 uint64
+	for _, data := range pool.AssetData {
+		if data.AssetTransitType == 2 {
+			t1 = data.AssetID
+		}
+		if data.AssetTransitType == 3 {
+			t2 = data.AssetID
+		}
+	}
+	r1, _ := k.GetAssetRatesParams(ctx, t1)
+	r2, _ := k.GetAssetRatesParams(ctx, t2)
+	a1, _ := f.a.AssetKeeper.GetAsset(ctx, t1)
+	var ratio sdk.Dec
+	if p, _ := safely(func() {
+		ratio, err = k.CalculateCollateralizationRatio(cc, b.AmountIn.Amount, assetIn, b.AmountOut.Amount.Add(b.InterestAccumulated.TruncateInt()), assetOut)
+	}); p {
+		return 3, "0"
+	}
+	if err != nil {
+		return 2, "0"
+	}
+	if !b.BridgedAssetAmount.Amount.Equal(sdk.ZeroInt()) {
+		if b.BridgedAssetAmount.Denom == a1.Denom {
+			thr = thr.Mul(r1.LiquidationThreshold)
+		} else {
+			thr = thr.Mul(r2.LiquidationThreshold)
+		}
+	}
+	if ratio.GT(thr) {
+		return 1, dint
+	}
+	return 0, dint
+}
+
 func c08UserLendIDs(f *c08Fix, ctx sdk.Context, addr string) (lendIDs, borrowIDs []uint64) {
 	for _, m := range f.a.LendKeeper.GetUserTotalMappingData(ctx, addr) {
 		lendIDs = append(lendIDs, m.LendId)
@@ -453,8 +529,8 @@ func TestC08(t *testing.T) {
 				}
 				return myBorrows[cr.intn(len(myBorrows))], true
 			}
-			kind := cr.intn(100)
-			warm := oi < 5 // the first messages of a history supply liquidity
+			kind := cr.intn(106) // 100..105: hand-over of a position to a liquidation auction
+			warm := oi < 5       // the first messages of a history supply liquidity
 			if warm {
 				kind = 0
 			}
@@ -476,6 +552,40 @@ func TestC08(t *testing.T) {
 			var msg sdk.Msg
 			var line string
 			switch {
+			case kind >= 100: // MsgLiquidateInternalKeeper{LiqType 1}: LiquidateIndividualBorrow -> UpdateLockedBorrows
+				b, _ := pickBorrow()
+				if len(borrows) > 0 && cr.chance(60) { // prefer the open position with the worst ratio
+					b = borrows[0]
+					worst := sdk.ZeroDec()
+					for _, x := range borrows {
+						if x.IsLiquidated {
+							continue
+						}
+						pr, _ := k.GetLendPair(ctx, x.PairID)
+						ai, _ := a.AssetKeeper.GetAsset(ctx, pr.AssetIn)
+						ao, _ := a.AssetKeeper.GetAsset(ctx, pr.AssetOut)
+						var r sdk.Dec
+						var err error
+						p, _ := safely(func() { r, err = k.CalculateCollateralizationRatio(ctx, x.AmountIn.Amount, ai, x.AmountOut.Amount.Add(x.InterestAccumulated.TruncateInt()), ao) })
+						if !p && err == nil && r.GT(worst) {
+							worst, b = r, x
+						}
+					}
+				}
+				if found := !b.IsLiquidated && b.PairID != 0 && cr.chance(50); found { // the collateral asset crashes first (an oracle move of its own)
+					pr, _ := k.GetLendPair(ctx, b.PairID)
+					if tw, ok := a.MarketKeeper.GetTwa(ctx, pr.AssetIn); ok && tw.Twa > 10 {
+						np := tw.Twa * uint64(20+cr.intn(50)) / 100
+						a.MarketKeeper.SetTwa(ctx, markettypes.TimeWeightedAverage{AssetID: pr.AssetIn, ScriptID: 12, Twa: np, CurrentIndex: 0,
+							IsPriceActive: true, PriceValue: []uint64{np}, DiscardedHeightDiff: -1})
+						tr.p("op %d setprice %d %d ok", dt, pr.AssetIn, np)
+						c08Project(f, ctx, tr)
+						dt = 0
+					}
+				}
+				d, dint := c08LiqEnv(f, ctx, b.ID)
+				msg = &liqV2types.MsgLiquidateInternalKeeperRequest{From: us, LiqType: 1, Id: b.ID}
+				line = fmt.Sprintf("handover %d %d %s", b.ID, d, dint)
 			case kind < 14: // Lend
 				pi := cr.intn(2)
 				pool, _ := k.GetPool(ctx, f.pools[pi])
